@@ -4,6 +4,7 @@ import (
 	"fmt"
 	"go/token"
 	"go/types"
+	"sort"
 	"strings"
 
 	"golang.org/x/tools/go/ssa"
@@ -36,6 +37,7 @@ func runC17(p *Prog, r *Report) {
 	checkSubnetMatch(p, r)
 	r.Min("C17.R7", 11+4)
 	checkParseBeforeUse(p, r, "C17.R7")
+	checkParsingSequential(p, r, "C17.R7")
 	checkFlagFieldsReadOnly(p, r, "C17.R7", func(fr FlagReg) bool {
 		return fr.Name == "iface" || fr.Name == "srcip" || fr.Name == "srcmac" || fr.Name == "gwmac"
 	})
@@ -725,4 +727,31 @@ func checkSubnetMatch(p *Prog, r *Report) {
 		}
 		r.Check(okE && hit, "C17.R6", FuncName(fn), p.Pos(fn.Pos()), "the first interface with a containing network is returned by copy together with that network's address", whyE)
 	}
+}
+
+// checkParsingSequential: option parsing runs in one goroutine. A parse step moved to a background
+// goroutine that shares the error result lets a later success overwrite an earlier failure (a bad --iface,
+// --srcmac or exclusion file is then accepted silently).
+func checkParsingSequential(p *Prog, r *Report, rule string) int {
+	n := 0
+	roots := append(p.methodsByName("command", "parseRawOptions"), p.methodsByName("command", "parseOptions")...)
+	for _, fn := range roots {
+		n++
+		var bad []string
+		for g := range p.staticReach(fn) {
+			if g.Pkg != fn.Pkg {
+				continue
+			}
+			for _, b := range g.Blocks {
+				for _, in := range b.Instrs {
+					if _, isGo := in.(*ssa.Go); isGo {
+						bad = append(bad, "go statement in "+FuncName(g)+" at "+p.Pos(in.Pos()))
+					}
+				}
+			}
+		}
+		sort.Strings(bad)
+		r.Check(len(bad) == 0, rule, FuncName(fn)+"/sequential", p.Pos(fn.Pos()), "option parsing starts no goroutine (every parse error reaches the caller; no parse result is written concurrently)", strings.Join(bad, "; "))
+	}
+	return n
 }
